@@ -12,3 +12,5 @@ INVARIANT L_HessSym
 INVARIANT L_GradCentral
 INVARIANT L_GradLinear
 INVARIANT L_GradOneSided
+INVARIANT L_TieChoice
+INVARIANT L_TieVisited
